@@ -161,7 +161,10 @@ def run_group(verif, repo, group, pid, tier, scratch):
         if row["result"] == "FAILED":
             # only assertion/panic/overflow failures are semantic; unwinding / unsupported are tool limits
             fc = row.get("failed_checks", [])
-            if fc and all(re.search(r"unwinding assertion|unsupported|not currently supported|recursion", c) for c in fc):
+            if not fc:
+                # CBMC crashed / was killed / ran out of memory: no failed property was reported
+                row["result"] = "UNDETERMINED"
+            elif all(re.search(r"unwinding assertion|unsupported|not currently supported|recursion", c) for c in fc):
                 row["result"] = "UNDETERMINED"
             elif row.get("playback"):
                 row["playback_result"] = run_playback(crate_dir, env, h, row["playback"], gd)
